@@ -29,7 +29,9 @@ impl StateMachine<'_> {
     /// before each line is handled, and at the end of input.
     pub fn handle_pending_submodule_short_commit(&mut self, at_end: bool) -> std::io::Result<()> {
         if let State::SubmoduleShort(Some(minus_commit)) = &self.state {
-            if at_end || !self.line.starts_with("+Subproject commit ") {
+            let twin_follows = self.line.starts_with("+Subproject commit ")
+                && get_submodule_short_commit(&self.line).is_some();
+            if at_end || !twin_follows {
                 self.painter.emit()?;
                 writeln!(
                     self.painter.writer,
@@ -48,7 +50,11 @@ impl StateMachine<'_> {
         if !self.test_submodule_short_line() || self.config.color_only {
             return Ok(false);
         }
-        if let Some(commit) = get_submodule_short_commit(&self.line) {
+        let Some(commit) = get_submodule_short_commit(&self.line) else {
+            // Not a line that git writes for a submodule: an ordinary hunk line.
+            return Ok(false);
+        };
+        {
             if let State::HunkHeader(_, _, _, _) = self.state {
                 self.state = State::SubmoduleShort(Some(commit.to_owned()));
             } else if let State::SubmoduleShort(minus_commit) = &self.state.clone() {
@@ -74,7 +80,7 @@ impl StateMachine<'_> {
 
 lazy_static! {
     static ref SUBMODULE_SHORT_LINE_REGEX: Regex =
-        Regex::new("^[-+]Subproject commit ([0-9a-f]{40})(-dirty)?$").unwrap();
+        Regex::new("^[-+]Subproject commit ([0-9a-f]{40}(?:[0-9a-f]{24})?)(-dirty)?$").unwrap();
 }
 
 pub fn get_submodule_short_commit(line: &str) -> Option<&str> {
